@@ -17,6 +17,7 @@ RULE = ("PCBO / PCSO models: objective over 2-4 variables (dyadic coefficients, 
         "variables incl. ancillas) mapped through the real convert_solution and remove_ancilla_from_solution. "
         "Non-trivial = some but not all assignments feasible; distinct = digest of (class, objective, constraints)"
         " Also: constraint polynomials from the 14 branch shapes of C02, objectives with several high-degree terms sharing variable pairs over 5-6 variables, a sibling object (copy / constructor / arithmetic result) that receives a constraint excluding the optimum, user labels containing '__a' inside.")
+RULE += " Rounds 9-10: earlier life + clear(), refresh() between constraints, typed polynomial objects edited by the caller afterwards, a conversion before any constraint exists, fractional weights, the solution handed to remove_ancilla_from_solution compared before / after."
 TIERS = {"quick": {"shards": 8, "cases": 90}, "thorough": {"shards": 16, "cases": 3000}}
 FLOOR_BASE = {"quick": 60, "thorough": 1500}    # case counts the floors below were calibrated for; the launcher scales them
 FORMS = ["self", "pubo", "puso", "qubo", "quso"]
